@@ -208,7 +208,9 @@ def rule_N2s(prog, fixture=False):
 
 
 # =================================================================================================
-V1_FILES = re.compile(r"include/dsplib/(delay|hilbert|tuner)\.h$|lib/hilbert\.cpp$")
+V1_FILES = re.compile(r"include/dsplib/(delay|hilbert|tuner)\.h$|lib/hilbert\.cpp$")       # reported under C14 (and C06)
+V1_STREAM_FILES = re.compile(r"include/dsplib/(delay|hilbert|tuner|fir|lms|rls|medfilt|agc|resample)\.h$|include/dsplib/audio/[^/]+\.h$|"
+                             r"lib/(hilbert|fir|medfilt|agc|detector)\.cpp$|lib/ma-filter\.h$|lib/resample/[^/]+\.cpp$")   # C06
 VIEW_TYPE = re.compile(r"dsplib::(const_)?slice_t<")
 
 
@@ -218,8 +220,9 @@ def rule_V1(prog, fixture=False):
     n_views = 0
     for f in sorted(prog.functions.values(), key=lambda f: (f.file, f.line, f.name)):
         rel = prog.rel(f.file)
-        if f.get("implicit") or not (V1_FILES.search(rel) or fixture):
+        if f.get("implicit") or not (V1_FILES.search(rel) or V1_STREAM_FILES.search(rel) or fixture):
             continue
+        v1_props = (["C14"] if (V1_FILES.search(rel) or fixture) else []) + ["C06"]
         flow = None
         for v in f.walk():
             if not (v.k == "VarDecl" and v.decl and v.decl.get("k") == "local" and VIEW_TYPE.search(v.type or "") and v.c):
@@ -233,7 +236,7 @@ def rule_V1(prog, fixture=False):
             where = "%s:%d" % (rel, v.line)
             what = "view '%s' in %s" % (v.decl["n"], f.short)
             if not roots:
-                res.add(key, UNMODELLED, where, what, "the viewed array could not be identified", func=f.name, extra={"props": ["C14"]})
+                res.add(key, UNMODELLED, where, what, "the viewed array could not be identified", func=f.name, extra={"props": v1_props})
                 continue
             uses = [u for u in f.walk() if u.k == "DeclRefExpr" and u.decl and u.decl.get("id") == v.decl["id"]]
             writes = []
@@ -283,9 +286,332 @@ def rule_V1(prog, fixture=False):
                 res.add(key, VIOLATED, "%s:%d" % (rel, u.line), what,
                         "the view of %s taken at line %d is read at line %d after %s (line %d) modified that array: it yields "
                         "the new contents, not the ones it was taken from" % (sorted("/".join(r) for r in roots), v.line, u.line, w.text(), w.line),
-                        func=f.name, extra={"props": ["C14"]})
+                        func=f.name, extra={"props": v1_props})
             else:
                 res.add(key, DISCHARGED, where, what, "no write of the viewed array between taking the view and its last read",
-                        func=f.name, extra={"props": ["C14"]})
+                        func=f.name, extra={"props": v1_props})
     res.stats["slice_view_locals"] = n_views
+    return res
+
+
+# =================================================================================================
+PROCESS_NAMES = {"process", "operator()"}
+
+
+def _write_sources(f, flow, field):
+    """[(node, atoms the written value may depend on)] for every write of this->field in f"""
+    from .rules_order import _is_assign
+    out = []
+    for n in f.walk():
+        lhs = _is_assign(n)
+        if lhs is not None:
+            if any(r == ("this", field) for r in flow.root(lhs)):
+                rhs_nodes = n.c[1:] if n.k != "CXXOperatorCallExpr" else n.c[2:]
+                deps = set()
+                for r in rhs_nodes:
+                    deps |= flow.deps(r)
+                l0 = lhs.strip_all()
+                if not (l0.k == "MemberExpr" and l0.decl and l0.decl.get("n") == field):
+                    # element write (_d[i] = v, *p = v): every other element keeps its previous value
+                    deps |= {("this", field, "content")}
+                if n.k == "CompoundAssignOperator" or (n.op not in ("=",) and n.op is not None):
+                    deps |= flow.deps(lhs)
+                if n.k == "UnaryOperator":
+                    deps |= flow.deps(lhs)
+                out.append((n, deps))
+            continue
+        if n.is_call() and n.callee:
+            qn = n.callee.get("qn", "")
+            args = n.call_args()
+            if qn in ("memcpy", "memmove", "std::memcpy", "std::memmove", "std::copy", "std::copy_n", "std::fill", "memset", "std::memset") and args:
+                dst = args[-1] if qn in ("std::copy", "std::copy_n") else args[0]
+                if any(r == ("this", field) for r in flow.root(dst)):
+                    deps = set()
+                    for a in args:
+                        if a.id != dst.id:
+                            deps |= flow.deps(a)
+                    if qn in ("memmove", "std::memmove"):
+                        pass
+                    out.append((n, deps))
+            else:
+                # a pointer to the member handed to a writing helper ( _update_sort(_s.data(), ...) )
+                pm = n.callee.get("pm", [])
+                for i, a in enumerate(args):
+                    if i < len(pm) and pm[i] in ("ptr", "ref") and any(r == ("this", field) for r in flow.root(a)):
+                        deps = set()
+                        for b in args:
+                            deps |= flow.deps(b)
+                        out.append((n, deps))
+                obj = n.call_object()
+                if obj is not None and "cls" in n.callee and not n.callee.get("const") and not n.callee.get("static") and n.k != "CXXConstructExpr":
+                    nm = qn.rsplit("::", 1)[-1]
+                    if nm not in ("operator[]", "operator()", "data", "begin", "end", "slice", "operator*", "operator->", "at", "front", "back") and not nm.endswith("="):
+                        if any(r == ("this", field) for r in flow.root(obj)):
+                            deps = flow.deps(obj)
+                            for b in args:
+                                deps |= flow.deps(b)
+                            out.append((n, deps))
+    return out
+
+
+def rule_H1(prog, fixture=False):
+    from .flow import is_container_type
+    res = RuleResult("H1", "in the process method of every streaming block processor each array-valued state member that is "
+                           "rewritten (delay line, history, overlap tail) receives a value that depends on its own previous contents "
+                           "AND on the contents of the input frame, and the returned output depends on the input and on that state: "
+                           "necessary for a history longer than the frame to survive (framing invariance for short frames)")
+    n_proc = 0
+    for f in sorted(prog.functions.values(), key=lambda f: (f.file, f.line, f.name)):
+        if f.get("implicit") or f.file.endswith("coverage.cc") or not f.cls or f.kind != "method":
+            continue
+        if f.qn.rsplit("::", 1)[-1] != "process":
+            continue
+        cj = prog.classes.get(f.cls)
+        if not cj:
+            continue
+        inputs = [p for p in f.params if is_container_type(p.get("t", ""))]
+        if not inputs:
+            continue
+        arrays = [x["name"] for x in cj["fields"] if is_container_type(x["ctype"]) and not x["const"]]
+        if not arrays:
+            continue
+        flow = Flow(f, prog, control=False)
+        rel = prog.rel(f.file)
+        written = []
+        for fld in arrays:
+            ws = _write_sources(f, flow, fld)
+            if ws:
+                written.append((fld, ws))
+        if not written:
+            continue
+        n_proc += 1
+        h1_props = ["C06"] + (["C08"] if "lib/resample/" in rel else [])
+        in_names = {p["n"] for p in inputs}
+        for (fld, ws) in written:
+            key = "H1:%s:%s" % (fkey(f), fld)
+            where = "%s:%d" % (rel, ws[0][0].line)
+            what = "%s carries %s across calls" % (f.short, fld)
+            # all writes together form the new value (memmove + element write, two memcpys ...)
+            deps = set()
+            for (_, d) in ws:
+                deps |= d
+            dep_self = any(a[0] == "this" and a[1] == fld and a[2] == "content" for a in deps)
+            dep_in = any(a[0] == "parm" and a[1] in in_names and a[2] == "content" for a in deps)
+            extra = {"props": h1_props}
+            if dep_self and dep_in:
+                res.add(key, DISCHARGED, where, what, "new contents depend on the previous contents and on the input frame (%d write site(s))" % len(ws),
+                        func=f.name, extra=extra)
+            elif dep_in and not dep_self:
+                res.add(key, VIOLATED, where, what,
+                        "%s is rebuilt from the input frame alone (%s): when the frame is shorter than the history the older samples are "
+                        "lost or read from outside the frame" % (fld, ws[0][0].text()), func=f.name, extra=extra)
+            elif dep_self and not dep_in:
+                res.add(key, UNMODELLED, where, what, "new contents depend only on the previous contents (coefficient-like state)", func=f.name, extra=extra)
+            else:
+                res.add(key, UNMODELLED, where, what, "write sources not understood", func=f.name, extra=extra)
+        # output uses the input and the state
+        rets = [n for n in f.walk() if n.k == "ReturnStmt" and n.c and not any(a.k == "LambdaExpr" for a in n.ancestors())]
+        if rets:
+            deps = set()
+            for r in rets:
+                deps |= flow.deps(r.c[0])
+            key = "H1:%s:output" % fkey(f)
+            dep_in = any(a[0] == "parm" and a[1] in in_names and a[2] == "content" for a in deps)
+            state_fields = [fld for (fld, _) in written]
+            dep_state = [fld for fld in state_fields if any(a[0] == "this" and a[1] == fld for a in deps)]
+            if dep_in and dep_state:
+                res.add(key, DISCHARGED, "%s:%d" % (rel, rets[0].line), "%s output" % f.short,
+                        "depends on the input frame and on the carried state %s" % ", ".join(dep_state), func=f.name, extra={"props": h1_props})
+            elif not dep_in:
+                res.add(key, VIOLATED, "%s:%d" % (rel, rets[0].line), "%s output" % f.short, "the returned frame does not depend on the contents of the input",
+                        func=f.name, extra={"props": h1_props})
+            else:
+                res.add(key, VIOLATED, "%s:%d" % (rel, rets[0].line), "%s output" % f.short,
+                        "the returned frame does not depend on any carried state (%s): every call starts from rest, a transient appears at "
+                        "each frame boundary" % ", ".join(state_fields), func=f.name, extra={"props": h1_props})
+    res.stats["stream_processors"] = n_proc
+    if n_proc == 0 and not fixture:
+        res.broken.append("anchor vanished: no process() method with array-valued state")
+    return res
+
+
+# =================================================================================================
+# R1 DOCUMENTED-REJECTION: must-pass-through of a live throwing guard, interprocedural
+def _must_reject(prog, f, pred, memo, parm_objs=None, depth=0):
+    """True iff on every path from f's entry to a normal return a live, throwing test accepted by `pred` has been passed on
+    its surviving edge - in f itself, or inside a repository function called on that path (closure over the call graph).
+    pred(ctx, cond, pol) decides whether the surviving outcome (cond == pol) is the documented check."""
+    key = (f.usr, tuple(sorted((k, tuple(sorted(v))) for k, v in (parm_objs or {}).items())))
+    if key in memo:
+        return memo[key]
+    memo[key] = False
+    if depth > 4:
+        return False
+    ctx = GuardCtx(prog, f, group_params=False, parm_objs=parm_objs)
+    blocks = f.blocks
+    nodes = f.nodes
+    if not blocks:
+        return False
+    edge_ok = {}
+    for (b, si, s_, cn, pol) in f.branch_edges():
+        tn = nodes.get(b.term) if b.term is not None else None
+        if (tn is not None and tn.is_belief()) or cn.is_belief():
+            continue
+        other = b.succs[1 - si]
+        if other is None or f.normal_exit_reachable_from(other):
+            continue          # the rejecting side must not be able to return normally
+        for (c, p) in atoms_of(cn, pol):
+            if pred(ctx, c, p):
+                edge_ok[(b.id, si)] = True
+    call_pos = {}
+    for n in f.walk():
+        if not (n.is_call() and n.callee and n.callee.get("repo")) or n.k in ("CXXConstructExpr", "CXXTemporaryObjectExpr"):
+            continue
+        targets = [prog.functions[u] for u in (prog.overriders(n.callee["usr"]) if n.callee.get("virt") else [n.callee["usr"]]) if u in prog.functions]
+        if not targets:
+            continue
+        args = n.call_args()
+        ok = True
+        for g in targets:
+            pmap = {}
+            for i, prm in enumerate(g.params):
+                if i < len(args):
+                    pmap[prm["n"]] = ctx.objs(args[i]) | ctx.base_objs(args[i])
+            if not _must_reject(prog, g, pred, memo, pmap, depth + 1):
+                ok = False
+                break
+        if ok:
+            loc = f.block_of(n)
+            if loc:
+                call_pos.setdefault(loc[0], []).append(loc[1])
+    tb = f.throw_blocks()
+    IN = {bid: True for bid in blocks}
+    IN[f.entry] = False
+    changed, it = True, 0
+    while changed and it < 60:
+        changed = False
+        it += 1
+        for bid, b in blocks.items():
+            if bid == f.entry:
+                continue
+            preds = []
+            for pid in b.preds:
+                if pid in tb:
+                    continue
+                pb = blocks[pid]
+                out = IN[pid] or bool(call_pos.get(pid))
+                for si, sx in enumerate(pb.succs):
+                    if sx == bid:
+                        preds.append(out or edge_ok.get((pid, si), False))
+            new = all(preds) if preds else (bid != f.exit and IN[bid])
+            if bid == f.exit and not preds:
+                new = True          # no normal return at all
+            if new != IN[bid]:
+                IN[bid] = new
+                changed = True
+    memo[key] = bool(IN.get(f.exit, False))
+    return memo[key]
+
+
+def _pred_granularity(ctx, c, pol):
+    """(input size) % (object state) == 0 holds on the surviving edge"""
+    cmp_ = as_comparison(c)
+    if cmp_ is None:
+        return False
+    l, op, r = cmp_
+    if not pol:
+        op = {"==": "!=", "!=": "=="}.get(op, op)
+    for a, b in ((l, r), (r, l)):
+        a0, b0 = a.strip_all(), b.strip_all()
+        if a0.k == "BinaryOperator" and a0.op == "%" and len(a0.c) == 2 and b0.k == "IntegerLiteral" and b0.get("v") == "0" and op == "==":
+            oa = ctx.objs(a0.c[0], ("size", "val"))
+            ob = ctx.objs(a0.c[1], ("size", "val"))
+            if any(o[0] == "parm" for o in oa) and (("this",) in ob):
+                return True
+    return False
+
+
+def _pred_window_length(ctx, c, pol):
+    """win.size() == f(n) holds on the surviving edge (win and n are parameters)"""
+    cmp_ = as_comparison(c)
+    if cmp_ is None:
+        return False
+    l, op, r = cmp_
+    if not pol:
+        op = {"==": "!=", "!=": "=="}.get(op, op)
+    if op != "==":
+        return False
+    ol, orr = ctx.objs(l, ("size",)), ctx.objs(r, ("size", "val"))
+    ol2, orr2 = ctx.objs(r, ("size",)), ctx.objs(l, ("size", "val"))
+    for (sz, other) in ((ol, orr), (ol2, orr2)):
+        if ("parm", "win") in sz and ("parm", "n") in other:
+            return True
+    return False
+
+
+R1_TABLE = [
+    # (property, qualified-name regex, parameter filter, predicate, what is rejected)
+    ("C08", re.compile(r"^dsplib::(FIRDecimator|FIRRateConverter)::process$"), None, _pred_granularity,
+     "a frame whose length is not a multiple of the decimation factor"),
+    ("C11", re.compile(r"^dsplib::fir1$"), "win", _pred_window_length, "a custom window whose length does not match the order"),
+]
+
+
+def rule_R1(prog, fixture=False):
+    res = RuleResult("R1", "every rejection the property statements document is implemented as a live, throwing check that lies on "
+                           "every path from the entry point to a normal return - in the function itself or in a function it calls on "
+                           "that path")
+    memo_by_pred = {}
+    n = 0
+    for (prop, rx, need_param, pred, what) in R1_TABLE:
+        funcs = [f for f in prog.functions.values() if rx.match(f.qn) and not f.get("implicit")]
+        if need_param:
+            funcs = [f for f in funcs if any(p["n"] == need_param for p in f.params)]
+        if not funcs and not fixture:
+            res.broken.append("anchor vanished: no function matching %s%s" % (rx.pattern, (" with a parameter '%s'" % need_param) if need_param else ""))
+            continue
+        for f in sorted(funcs, key=lambda f: (f.file, f.line)):
+            n += 1
+            memo = memo_by_pred.setdefault(pred.__name__, {})
+            pmap = {p["n"]: {("parm", p["n"])} for p in f.params}
+            ok = _must_reject(prog, f, pred, memo, pmap)
+            key = "R1:%s:%s" % (prop, fkey(f))
+            where = "%s:%d" % (prog.rel(f.file), f.line)
+            desc = "%s rejects %s" % (f.short, what)
+            extra = {"props": [prop]}
+            if ok:
+                res.add(key, DISCHARGED, where, desc, "a live throwing check lies on every path to a normal return", func=f.name, extra=extra)
+            else:
+                res.add(key, VIOLATED, where, desc,
+                        "some path from the entry to a normal return passes no live throwing check of that condition (neither here "
+                        "nor in a callee on that path): the input is processed instead of being rejected", func=f.name, extra=extra)
+    # C08: resample(x, p, q) returns x itself when the reduced ratio is 1
+    for f in sorted([f for f in prog.functions.values() if f.qn == "dsplib::resample"], key=lambda f: f.line):
+        n += 1
+        key = "R1:C08:identity:%s" % fkey(f)
+        where = "%s:%d" % (prog.rel(f.file), f.line)
+        x = f.params[0]["n"] if f.params else None
+        found = None
+        for s_ in f.walk():
+            if s_.k != "IfStmt":
+                continue
+            c = s_.role("cond")
+            cmp_ = as_comparison(c) if c is not None else None
+            if cmp_ is None or cmp_[1] != "==":
+                continue
+            then = s_.role("then")
+            rets = [r for r in (then.walk() if then is not None else []) if r.k == "ReturnStmt" and r.c]
+            for r in rets:
+                e = r.c[0].strip_all()
+                while e.k == "CXXConstructExpr" and len(e.c) == 1:
+                    e = e.c[0].strip_all()
+                if e.k == "DeclRefExpr" and e.decl and e.decl.get("k") == "parm" and e.decl.get("n") == x:
+                    found = s_
+        if found is not None:
+            res.add(key, DISCHARGED, "%s:%d" % (prog.rel(f.file), found.line), "%s returns x itself when p = q" % f.short,
+                    "branch %s returns the input parameter" % found.role("cond").text(), func=f.name, extra={"props": ["C08"]})
+        else:
+            res.add(key, VIOLATED, where, "%s returns x itself when p = q" % f.short,
+                    "no branch on equality of the reduced ratio returns the input parameter unchanged", func=f.name, extra={"props": ["C08"]})
+    res.stats["documented_rejections"] = n
     return res
